@@ -60,6 +60,10 @@ var (
 	c19AddrOtherXchg = simnet.Addr("10.0.0.44", 40444)
 )
 
+// c19Open: the trigger shapes of a process-killing finding are excluded by construction while it is listed open
+// (never in replay mode: the stored case must keep reproducing it).
+func c19Open(sig string) bool { return vlib.GetEnv().Replay == "" && vlib.KnownOpen(sig) }
+
 func c19Same(a, b *net.UDPAddr) bool { return a != nil && b != nil && a.String() == b.String() }
 
 func c19Settle() { time.Sleep(5 * time.Millisecond) }
@@ -569,7 +573,7 @@ func c19FloodRun(t *testing.T) func(c c19FloodCase, v *vlib.Verdict) {
 
 func TestVerifC19Stateless(t *testing.T) {
 	c19SelfTest(t)
-	vlib.Drive(t, vlib.Spec[c19FloodCase]{ID: "C19", Quick: 240, Gen: c19FloodGen, Run: c19FloodRun(t)})
+	vlib.Drive(t, vlib.Spec[c19FloodCase]{ID: "C19", Quick: 400, Gen: c19FloodGen, Run: c19FloodRun(t)})
 }
 
 // ---------------------------------------------------------------------------
@@ -830,7 +834,11 @@ func c19CookieRun(t *testing.T) func(c c19CookieCase, v *vlib.Verdict) {
 			return
 		}
 		what := strings.Join(differs, "+")
-		v.Label("differs:" + what)
+		if len(differs) == 1 {
+			v.Label("differs-only-in:" + what)
+		} else {
+			v.Labelf("differs-in-%d-ways", len(differs))
+		}
 		v.NonTrivial = true
 		if accepted {
 			v.Failf("C19:cookie-accepted:"+what, "client acknowledgement accepted although it differs from the exchange the cookie was minted for in: %s (ServerAuth emitted %v, handshake entry for the source %v, table change %q %d->%d; server sent:%s)",
@@ -902,7 +910,7 @@ func TestVerifC19CookieSweep(t *testing.T) {
 
 func TestVerifC19CookieRandom(t *testing.T) {
 	c19SelfTest(t)
-	vlib.Drive(t, vlib.Spec[c19CookieCase]{ID: "C19", Quick: 700, Run: c19CookieRun(t), Gen: func(t *rapid.T) c19CookieCase {
+	vlib.Drive(t, vlib.Spec[c19CookieCase]{ID: "C19", Quick: 1500, Run: c19CookieRun(t), Gen: func(t *rapid.T) c19CookieCase {
 		c := c19CookieCase{Real: rapid.Bool().Draw(t, "real")}
 		c.From = rapid.SampledFrom([]int{0, 0, 1, 2, 3}).Draw(t, "from")
 		if c.Real {
@@ -955,7 +963,7 @@ var c19DiscoverableNames = []string{"ClientHello", "ServerHello", "ClientAck", "
 
 // c19HiddenNormalize redirects the shapes that trigger a process-killing finding while it is listed open.
 func c19HiddenNormalize(c *c19HiddenCase) string {
-	if c.Certs > 1 && vlib.KnownOpen(c19SigHiddenMulti) {
+	if c.Certs > 1 && c19Open(c19SigHiddenMulti) {
 		hit := false
 		switch c.Class {
 		case "wrong-kem", "altered":
@@ -970,7 +978,7 @@ func c19HiddenNormalize(c *c19HiddenCase) string {
 			return c19SigHiddenMulti
 		}
 	}
-	if c.Class == "session-live" && c.Kind == 0 && c.Len >= HeaderLen+SessionIDLen && c.Len < HeaderLen+SessionIDLen+CounterLen+TagLen && vlib.KnownOpen(c19SigMakeslice) {
+	if c.Class == "session-live" && c.Kind == 0 && c.Len >= HeaderLen+SessionIDLen && c.Len < HeaderLen+SessionIDLen+CounterLen+TagLen && c19Open(c19SigMakeslice) {
 		c.Len += HeaderLen + SessionIDLen + CounterLen + TagLen
 		return c19SigMakeslice
 	}
@@ -1076,7 +1084,7 @@ func (j *c19HiddenJudge) atMostOneResponse(class, what string, to *net.UDPAddr) 
 	}
 	d := got[0]
 	if len(got) > 1 || len(d.Data) == 0 || MessageType(d.Data[0]) != MessageTypeServerResponseHidden || !c19Same(d.Dst, to) {
-		j.v.Failf("C19:hidden-server-answered:more-than-one-response:"+class, "after %s from %v the hidden server sent:%s (allowed: one ServerResponseHidden to the source)", what, to, c19Describe(got))
+		j.v.Failf("C19:hidden-server-answered:not-exactly-one-response:"+class, "after %s from %v the hidden server sent:%s (allowed: one ServerResponseHidden to the source)", what, to, c19Describe(got))
 		return true, false
 	}
 	return true, true
@@ -1304,7 +1312,7 @@ func c19Hidden(c c19HiddenCase, v *vlib.Verdict, future []byte) (mach string) {
 				e := len(b) - c19MinHiddenLen
 				b[2], b[3] = byte(e>>8), byte(e)
 			}
-			if c.Certs > 1 && vlib.KnownOpen(c19SigHiddenMulti) && MessageType(b[0]) == MessageTypeClientRequestHidden && len(b) >= c19MinHiddenLen {
+			if c.Certs > 1 && c19Open(c19SigHiddenMulti) && MessageType(b[0]) == MessageTypeClientRequestHidden && len(b) >= c19MinHiddenLen {
 				b[1] = Version + 1 // excluded by construction (see c19HiddenNormalize)
 			}
 			cls = c19JunkClass(b)
@@ -1752,7 +1760,12 @@ func c19HiddenGen(L int) func(t *rapid.T) c19HiddenCase {
 			c.Kind = rapid.SampledFrom([]int{0, 0, 0, 1, 2}).Draw(t, "kind")
 			switch c.Kind {
 			case 0:
-				c.Off = rapid.IntRange(0, L-1).Draw(t, "off")
+				// field first, then the offset inside it (layout of writePQClientRequestHidden)
+				starts := []int{0, HeaderLen, HeaderLen + KemKeyLen, HeaderLen + KemKeyLen + KemCtLen, L - MacLen - TimestampLen - MacLen, L - TimestampLen - MacLen, L - MacLen, L}
+				f := rapid.IntRange(0, len(starts)-2).Draw(t, "field")
+				if starts[f+1] > starts[f] {
+					c.Off = rapid.IntRange(starts[f], starts[f+1]-1).Draw(t, "off")
+				}
 				c.Mask = rapid.IntRange(1, 255).Draw(t, "mask")
 			case 1:
 				c.Len = rapid.IntRange(0, L-1).Draw(t, "len")
@@ -1770,7 +1783,7 @@ func c19HiddenGen(L int) func(t *rapid.T) c19HiddenCase {
 
 func TestVerifC19HiddenRandom(t *testing.T) {
 	L := c19SelfTest(t)
-	vlib.Drive(t, vlib.Spec[c19HiddenCase]{ID: "C19", Quick: 1200, Gen: c19HiddenGen(L), Run: c19HiddenRun(t)})
+	vlib.Drive(t, vlib.Spec[c19HiddenCase]{ID: "C19", Quick: 2500, Gen: c19HiddenGen(L), Run: c19HiddenRun(t)})
 }
 
 // ---------------------------------------------------------------------------
